@@ -127,6 +127,8 @@ class Monitor:
         self.ctx = ctx
         self.expect = None          # (numeral, unit) or ("malformed",) for the string being driven
         self.text = None
+        self.inner = False          # white space between numeral and unit: a spelling the statement does not
+        #                             cover (SVG does not allow it) - the right value or None are both accepted
 
     def _fail(self, fn, got, want, **kw):
         w = {"fn": fn, "text": self.text, "got": got, "expected": want}
@@ -143,6 +145,9 @@ class Monitor:
                 self._fail("parseLengthWithUnits", result, [None, None])
             return True
         num, unit = self.expect
+        if self.inner and result == (None, None):
+            self.ctx.count("accepted: numeral and unit separated by white space rejected as a spelling")
+            return True
         want_units = {"": ("px", ""), "q": ("Q", "q")}.get(unit, (unit,))
         ok = isinstance(result, tuple) and len(result) == 2 and \
             isinstance(result[0], float) and result[0] == float(num) and result[1] in want_units
@@ -160,6 +165,9 @@ class Monitor:
                 self._fail("unitsToUserUnits", result, None)
             return True
         num, unit = self.expect
+        if self.inner and result is None:
+            self.ctx.count("accepted: numeral and unit separated by white space rejected as a spelling")
+            return True
         if unit == "%":
             ref = percent_ref if percent_ref else 1.0
             want = float(Fraction(num) * Fraction(ref) / 100)
@@ -178,18 +186,47 @@ def install(ctx):
     return mon
 
 
-def one_case(ctx, mon, cls, text, num, unit, ref, default):
+def gen_siblings(rng):
+    """Other attributes a real <svg> root carries next to the one being read.  The readers are given a
+    name and a reference; nothing else on the element may influence the answer."""
+    if rng.random() < 0.35:
+        return "width", {}
+    sib = {}
+    if rng.random() < 0.7:
+        sib["viewBox"] = "%s %s %s %s" % (rng.choice((0, 0, -10, 5.5)), rng.choice((0, 0, 20)),
+                                          round(rng.uniform(1, 2000), rng.choice((0, 1, 3))),
+                                          round(rng.uniform(1, 2000), rng.choice((0, 1, 3))))
+    if rng.random() < 0.5:
+        sib["preserveAspectRatio"] = rng.choice(("none", "xMidYMid meet", "xMinYMax slice"))
+    for other in ("width", "height", "x", "y"):
+        if rng.random() < 0.5:
+            sib[other] = "%s%s" % (round(rng.uniform(0, 900), 2), rng.choice(SUPPORTED))
+    if rng.random() < 0.2:
+        sib["{http://www.inkscape.org/namespaces/inkscape}version"] = "1.2"
+    return rng.choice(("width", "width", "height", "x", "r")), sib
+
+
+def one_case(ctx, mon, cls, text, num, unit, ref, default, attr="width", siblings=None):
     from plotink import plot_utils
     mon.text, mon.expect = text, (num, unit)
+    mon.inner = inner = num is not None and text.strip() != num + unit
     try:
         parsed = plot_utils.parseLengthWithUnits(text)
         uu = plot_utils.unitsToUserUnits(text, ref) if ref is not None else plot_utils.unitsToUserUnits(text)
         uu_noref = plot_utils.unitsToUserUnits(text)
-        stub = Stub({"width": text})
-        g_len = plot_utils.getLength(stub, "width", default)
-        g_in = plot_utils.getLengthInches(stub, "width")
-        absent = plot_utils.getLength(Stub({}), "width", default)
-        absent_in = plot_utils.getLengthInches(Stub({}), "width")
+        attrs = dict(siblings or {})
+        attrs[attr] = text
+        stub = Stub(attrs)
+        g_len = plot_utils.getLength(stub, attr, default)
+        g_in = plot_utils.getLengthInches(stub, attr)
+        others = dict(siblings or {})
+        others.pop(attr, None)
+        absent = plot_utils.getLength(Stub(others), attr, default)
+        absent_in = plot_utils.getLengthInches(Stub(others), attr)
+        if siblings:
+            ctx.tag("document root carries sibling attributes (viewBox / other dimensions)")
+            if "viewBox" in siblings:
+                ctx.tag("document root carries a viewBox")
     except Exception as exc:
         ctx.violation("exception", {"fn": "driver", "text": text, "class": cls, "exception": repr(exc)})
         return
@@ -197,6 +234,9 @@ def one_case(ctx, mon, cls, text, num, unit, ref, default):
 
     def fail(kind, **kw):
         w = {"fn": kind, "text": text, "class": cls, "percent_ref": ref, "default": default}
+        if siblings or attr != "width":
+            w["attribute"] = attr
+            w["siblings"] = siblings
         w.update(kw)
         ctx.violation(kind, w)
 
@@ -214,6 +254,11 @@ def one_case(ctx, mon, cls, text, num, unit, ref, default):
             fail("malformed text gave a number", unitsToUserUnits=uu, parse=parsed)
         return
     value = float(num)
+    if inner:
+        ctx.tag("spelling: white space between numeral and unit (value or None accepted)")
+        if parsed == (None, None) or None in (uu, uu_noref, g_len) or (g_in is None and unit != "%"):
+            ctx.count("accepted: numeral and unit separated by white space rejected as a spelling")
+            return
     if unit == "%":
         want_len = float(Fraction(default) * Fraction(num) / 100)
         if not close(g_len, want_len):
@@ -247,6 +292,9 @@ def run(ctx):
     n = ctx.budget(60_000, 1_000_000)
     done = 0
     while done < n and ctx.alive():
+        if rng.random() < 0.004:
+            from .. import noise
+            noise.burst(ctx, rng, exclude=('units',))
         if rng.random() < 0.005:
             from ..gen_stepper import failed_call
             failed_call(rng, rng.choice((plot_utils.parseLengthWithUnits, plot_utils.unitsToUserUnits,
@@ -257,7 +305,8 @@ def run(ctx):
         default = rng.choice((100, 793.7, 1, 3508, 0, 0.0, -50, 1e-3))
         ctx.case([cls], text, nontrivial=bool(unit) or num is None)
         ctx.sample({"text": text, "numeral": num, "unit": unit}, tag=cls, per_tag=1)
-        one_case(ctx, mon, cls, text, num, unit, ref, default)
+        attr, siblings = gen_siblings(rng)
+        one_case(ctx, mon, cls, text, num, unit, ref, default, attr, siblings)
         done += 1
         # history: the next strings share the numeral (other unit), the unit (numeral +- a little) or
         # everything but the reference with the previous one
@@ -285,9 +334,12 @@ def run(ctx):
     for m in ("unsupported unit", "unit only", "empty", "double sign", "two numbers", "words",
               "unit then number", "exponent garbage"):
         ctx.need("malformed:" + m, 100)
+    ctx.need("document root carries a viewBox", 10_000)
+    ctx.need("spelling: white space between numeral and unit (value or None accepted)", 1_000)
     ctx.need("monitor:parseLengthWithUnits evaluated", 30_000)
     ctx.need("monitor:unitsToUserUnits evaluated", 30_000)
     ctx.need("monitor:round trip evaluated", 20_000)
+    ctx.need("history: after calls to other library functions", 150)
     contracts.uninstall_all()
 
 
@@ -314,5 +366,6 @@ def replay(ctx, rec):
         except ValueError:
             pass
     ctx.case(["replay"], None)
-    one_case(ctx, mon, w.get("class", "replay"), text, num, unit, w.get("percent_ref"), w.get("default", 100))
+    one_case(ctx, mon, w.get("class", "replay"), text, num, unit, w.get("percent_ref"), w.get("default", 100),
+             w.get("attribute", "width"), w.get("siblings"))
     contracts.uninstall_all()
